@@ -613,8 +613,16 @@ Proof. vm_compute. repeat split; reflexivity. Qed.
                             the loops of filter_fold / siter_fold / union_fold / symdiff_fold
                             (Model/SetOps.v) with an ARBITRARY accumulator function F in place of
                             the closure "push the slot" the model's folds are specialised to
-                            (C08_fold_gen_unfold; C08_filter_fold_is_gen, C08_union_fold_is_gen,
-                            C08_symdiff_fold_is_gen: at F = push they ARE the model's folds).
+                            (C08_fold_gen_unfold).  Tie to the model's folds at F = push:
+                            C08_filter_fold_is_gen / C08_siter_fold_is_gen are equations of
+                            computations; C08_union_fold_is_gen / C08_symdiff_fold_is_gen are only
+                            result-equalities under Lawful from unrelated start worlds — the
+                            EQUATIONS for them (every environment, every world) are
+                            C08_union_fold_eq_gen / C08_symdiff_fold_eq_gen in the SECOND AUDIT
+                            CLOSURE section at the end of this file.  F is a PURE function
+                            A -> item -> A: stateful or panicking fold closures are outside these
+                            statements (the interpreter's fate-2 sessions exercise a panicking
+                            closure, for safety only).
 
    4. "every prefix length of consumption" for Union / SymmetricDifference:
         C08_union_next_lawful, C08_symdiff_next_lawful   one next(): yields the head of the pending
@@ -1111,3 +1119,184 @@ Example C08_example_exec :
   WFx (init_world 0 0 3 3) /\
   match SSub 2 3 with SAlgebra _ _ _ _ _ | SPred _ _ _ | SSub _ _ => True | _ => False end.
 Proof. split; [apply init_WFx | exact I]. Qed.
+
+(* ======================================================================== *)
+(* SECOND AUDIT CLOSURE (Proofs/MoreSet.v, section ROUND 2)
+
+   1. THE '-' OPERATOR INCLUDING THE CONSTRUCTION OF ITS RESULT.  In C08_set_sub_lawful(_uniq)
+      `cap (self w) = cap a` is a hypothesis about the set the collect loop runs on; the `Set::new()`
+      of the left operand's capacity is created in Exec.step's SSub arm
+      (`swap_self (new_map (cap a)) (set_sub Es debug a b)`: run set_sub with a fresh local set in
+      place of self, return that local, restore self).
+        C08_swap_set_sub_lawful   no hypothesis on the surrounding world: the returned set has
+                                  capacity cap a, its classes are those of a not in b, in a's order,
+                                  none twice; self is untouched; the log grows by the clone events.
+        C08_step_ssub             Exec.step (SSub r r') under an honest script: the observation is
+                                  [1] (returned) ++ len res :: (id, class) of res's elements ++ the
+                                  register r as it was ++ events lg; lg = one clone per element of the
+                                  difference, then one drop per element of the temporary result res
+                                  (it is destroyed after being rendered); all four registers unchanged.
+   2. FOLD: the equations between the model's Chain folds and the generic loops at F = push:
+        C08_filter_fold_gen_push_map   the generic loop at F = "push (g slot)" computes the model's
+                                  push-slot fold and maps g over its result (same outcome, same world)
+        C08_union_fold_eq_gen, C08_symdiff_fold_eq_gen, C08_siter_fold_is_gen
+      for EVERY environment (no Lawful) and every world.  F pure: see the vocabulary note above.
+   3. difference_ref.  src/set/difference.rs has a second adaptor, DifferenceRef, over
+      Set<&T,N> against Set<&T,M>.  Model/SetOps.v has ONE difference adaptor whose operands are
+      `map K unit`; a set of references is represented by the set it refers to (a reference &T
+      compares by T's ==, and the harness builds the two reference-sets by copying the operands
+      slot by slot, so slots and order coincide; the items yielded are compared by the slot of the
+      ORIGINAL left operand they point to).  In Model/Exec.v the algebra session has kinds
+      0 = difference, 1 = intersection, 2 = union, 3 = symmetric_difference, any other number
+      (the harness sends 4) = difference_ref, and for such a kind every component (alg_init,
+      alg_next, alg_hint, alg_fold) takes the branch of kind 0:
+        C08_alg_session_difference_ref, C08_step_difference_ref   the session / the interpreter step
+                                  of kind 4 IS the one of kind 0, for every script and world.
+      Hence every theorem above about Difference (want = false: C08_filter_next_lawful,
+      C08_filter_run_steps, C08_sel_elems, C08_difference_spec, C08_diff_hint_brackets,
+      C08_diff_hint_stage, C08_diff_run_is_fold, C08_filter_fold_gen_lawful) is the theorem about
+      difference_ref.  That DifferenceRef's Rust code is the same state machine as Difference's is
+      the correspondence check's business (MODELLED.tsv maps both to SetOps.diff_next etc.).     *)
+(* ======================================================================== *)
+Require Import Proofs.ExecUniq.
+
+Theorem C08_swap_set_sub_lawful :
+  forall (Q : Type) (E : env key unit Q cstate) (debug : bool) (ck : key -> N) (cq : Q -> N)
+         (HL : Lawful E ck cq)
+         (HCK : forall (s : cstate) (k : key), exists (k' : key) (s' : cstate),
+                   cloneK E s k = (Some k', s') /\ ck k' = ck k)
+         (a b : map key unit) (w : world key unit cstate),
+    WF a -> WF b -> Uniq ck (Spec.elems a) ->
+    wp (swap_self (new_map (cap a)) (set_sub E debug a b))
+       (fun (r : unit * map key unit) (w' : world key unit cstate) =>
+          WF (snd r) /\
+          cap (snd r) = cap a /\
+          List.map (fun p : key * unit => ck (fst p)) (Spec.elems (snd r)) =
+          List.map (fun p : key * unit => ck (fst p))
+                   (filter (fun p : key * unit => negb (mem ck b (fst p))) (Spec.elems a)) /\
+          NoDup (List.map (fun p : key * unit => ck (fst p)) (Spec.elems (snd r))) /\
+          (forall c : N,
+              In c (List.map (fun p : key * unit => ck (fst p)) (Spec.elems (snd r))) <->
+              In c (List.map (fun p : key * unit => ck (fst p)) (Spec.elems a)) /\
+              ~ In c (List.map (fun p : key * unit => ck (fst p)) (Spec.elems b))) /\
+          self w' = self w /\
+          log w' =
+          log w ++ flat_map (fun p : key * unit => List.map EvCloneK (idK E (fst p)))
+                            (filter (fun p : key * unit => negb (mem ck b (fst p))) (Spec.elems a)))
+       (fun _ : world key unit cstate => False) w.
+Proof. exact (fun Q E debug ck cq HL HCK => swap_set_sub_lawful E debug ck cq HL HCK). Qed.
+Print Assumptions C08_swap_set_sub_lawful.
+
+Theorem C08_step_ssub :
+  forall (debug : bool) (sc : script) (r r' : N) (x : xworld),
+    honest sc ->
+    WFx x ->
+    Uniq kcls (Spec.elems (get_s r x)) ->
+    let a := get_s r x in
+    let b := get_s r' x in
+    exists (res : map key unit) (lg : list event),
+      fst (step debug sc (SSub r r') x) =
+      [1%N] ++ (nn (len res) :: flat_map r_spair (Spec.elems res)) ++ post_s a ++ events lg /\
+      WF res /\
+      cap res = cap a /\
+      List.map (fun p : key * unit => kcls (fst p)) (Spec.elems res) =
+      List.map (fun p : key * unit => kcls (fst p))
+               (filter (fun p : key * unit => negb (mem kcls b (fst p))) (Spec.elems a)) /\
+      NoDup (List.map (fun p : key * unit => kcls (fst p)) (Spec.elems res)) /\
+      lg =
+      List.map (fun p : key * unit => EvCloneK (kid (fst p)))
+               (filter (fun p : key * unit => negb (mem kcls b (fst p))) (Spec.elems a)) ++
+      List.map (fun p : key * unit => EvDrop (kid (fst p))) (Spec.elems res) /\
+      (xm0 (snd (step debug sc (SSub r r') x)), xm1 (snd (step debug sc (SSub r r') x)),
+       xs0 (snd (step debug sc (SSub r r') x)), xs1 (snd (step debug sc (SSub r r') x)))
+      = (xm0 x, xm1 x, xs0 x, xs1 x) /\
+      xdead (snd (step debug sc (SSub r r') x)) = false.
+Proof. exact step_ssub. Qed.
+Print Assumptions C08_step_ssub.
+
+(* ---------------------------------------------------------------------- *)
+(* 2. folds: equations                                                      *)
+(* ---------------------------------------------------------------------- *)
+
+Theorem C08_filter_fold_gen_push_map :
+  forall (K Q T : Type) (E : env K unit Q T) (X : Type) (g : nat -> X) (a b : map K unit)
+         (want : bool) (n lo : nat) (acc : list X) (l0 : list nat) (w : world K unit T),
+    filter_fold_gen E (fun (x : list X) (i : nat) => x ++ [g i]) a b want n lo (acc ++ List.map g l0) w =
+    match filter_fold E a b want n lo l0 w with
+    | Ok l w' => Ok (acc ++ List.map g l) w'
+    | Panic w' => Panic w'
+    | UB => UB
+    end.
+Proof. exact (@filter_fold_gen_push_map). Qed.
+Print Assumptions C08_filter_fold_gen_push_map.
+
+Theorem C08_siter_fold_is_gen :
+  forall (K T : Type) (b : map K unit) (n lo : nat) (acc : list (bool * nat)) (w : world K unit T),
+    siter_fold b n lo acc w =
+    siter_fold_gen (fun (x : list (bool * nat)) (i : nat) => x ++ [(true, i)]) b n lo acc w.
+Proof. exact (@siter_fold_is_gen). Qed.
+Print Assumptions C08_siter_fold_is_gen.
+
+Theorem C08_union_fold_eq_gen :
+  forall (K Q T : Type) (E : env K unit Q T) (a b : map K unit) (u : chain) (w : world K unit T),
+    union_fold E a b u w =
+    union_fold_gen E (fun (x : list (bool * nat)) (it : bool * nat) => x ++ [it]) a b u [] w.
+Proof. exact (@union_fold_eq_gen). Qed.
+Print Assumptions C08_union_fold_eq_gen.
+
+Theorem C08_symdiff_fold_eq_gen :
+  forall (K Q T : Type) (E : env K unit Q T) (a b : map K unit) (u : chain) (w : world K unit T),
+    symdiff_fold E a b u w =
+    symdiff_fold_gen E (fun (x : list (bool * nat)) (it : bool * nat) => x ++ [it]) a b u [] w.
+Proof. exact (@symdiff_fold_eq_gen). Qed.
+Print Assumptions C08_symdiff_fold_eq_gen.
+
+(* ---------------------------------------------------------------------- *)
+(* 3. difference_ref                                                        *)
+(* ---------------------------------------------------------------------- *)
+
+Theorem C08_alg_session_difference_ref :
+  forall (sc : script) (kind : N) (a b : map key unit) (steps : nat) (mode : N)
+         (w : world key unit cstate),
+    kind <> 1%N /\ kind <> 2%N /\ kind <> 3%N ->
+    alg_session sc kind a b steps mode w = alg_session sc 0 a b steps mode w.
+Proof. exact alg_session_difference_ref. Qed.
+Print Assumptions C08_alg_session_difference_ref.
+
+Theorem C08_step_difference_ref :
+  forall (sc : script) (debug : bool) (kind r r' : N) (steps : nat) (mode : N) (x : xworld),
+    kind <> 1%N /\ kind <> 2%N /\ kind <> 3%N ->
+    step debug sc (SAlgebra kind r r' steps mode) x = step debug sc (SAlgebra 0 r r' steps mode) x.
+Proof. exact step_difference_ref. Qed.
+Print Assumptions C08_step_difference_ref.
+
+(* ---------------------------------------------------------------------- *)
+(* non-vacuity                                                              *)
+(* ---------------------------------------------------------------------- *)
+
+(* registers 2 and 3 hold the operands of C08_example_hyps (built by six inserts, capacities 4
+   and 3).  `&s2 - &s3`: the observation is 1, len 1, the clone (id 100000, class 6), register 2
+   as it was (7777 len cap elements), events: dropped ids {100000} (the temporary result),
+   cloned ids {2}; the hypotheses of C08_step_ssub hold of that world; difference_ref (kind 4)
+   and difference (kind 0) give the same observation. *)
+Example C08_example_ssub :
+  let sc0 := {| sc_adv := false; sc_seed := 0; sc_fk := 0; sc_fa := 0 |} in
+  let x0 := run_final false sc0
+              [SInsert 2 (mk 1 5); SInsert 2 (mk 2 6); SInsert 2 (mk 3 7);
+               SInsert 3 (mk 4 7); SInsert 3 (mk 5 9); SInsert 3 (mk 6 5)]%N (init_world 0 0 4 3) in
+  honest sc0 /\ WFx x0 /\ Uniq kcls (Spec.elems (get_s 2 x0)) /\
+  fst (step false sc0 (SSub 2 3) x0) =
+  [1; 1; 100000; 6; 7777; 3; 4; 1; 5; 2; 6; 3; 7; 8888; 100000; 8889; 2]%N /\
+  (4 <> 1 /\ 4 <> 2 /\ 4 <> 3)%N /\
+  fst (step false sc0 (SAlgebra 4 2 3 1 0) x0) = fst (step false sc0 (SAlgebra 0 2 3 1 0) x0) /\
+  fst (step false sc0 (SAlgebra 4 2 3 1 0) x0) =
+  [1; 0; 3; 1; 0; 1; 2; 6; 0; 1; 2; 91; 93; 0; 7777; 3; 4; 1; 5; 2; 6; 3; 7; 8888; 8889]%N.
+Proof.
+  intros sc0 x0. assert (Hh : honest sc0) by (split; reflexivity).
+  split; [exact Hh|]. split.
+  { unfold x0. cbn [run_final]. do 6 (apply step_safe; [|exact I]). apply init_WFx. }
+  split; [vm_compute; repeat constructor; cbn; intuition discriminate|].
+  split; [vm_compute; reflexivity|].
+  split; [repeat split; discriminate|].
+  split; vm_compute; reflexivity.
+Qed.
